@@ -20,7 +20,8 @@ T1Defs(c) == IF T1Leaves[c].maxDef = 0 THEN <<0, 0, 0, 0, 0>>
 T1Cont(c, g) == LET defs == T1Defs(c)
                  nn == Len(SelectSeq(defs, LAMBDA d : d = T1Leaves[c].maxDef))
              IN [defs |-> defs, reps |-> <<0, 0, 0, 0, 0>>,
-                 vals |-> [i \in 1..nn |-> Tk(T1Leaves[c].type, T1Leaves[c].tlen, i + c + Seed + 3 * g)]]
+                 \* column 3 (REQUIRED INT64) holds one value only: a dictionary of a single entry (index width 0 or 1)
+                 vals |-> [i \in 1..nn |-> Tk(T1Leaves[c].type, T1Leaves[c].tlen, IF c = 3 THEN c + Seed + g ELSE i + c + Seed + 3 * g)]]
 
 \* ---- table 2: nested. l: OPTIONAL group { list: REPEATED group { e: OPTIONAL INT64 } } ; r: REQUIRED group { x: OPTIONAL DOUBLE ; y: REQUIRED FLBA(2) }
 \* rows: l = [1, null, 3] ; null ; [] ; [null]
@@ -78,7 +79,8 @@ Cuts(t, c, np) == LET n == Len(Cont(t, c, 1).defs)
 Styles == {"rle", "bp", "bp1", "mix", "zero", "pad1"}
 OptSpace == [style : Styles, idxStyle : {"rle", "bp", "mix"}, useDict : BOOLEAN, dictOffsetField : BOOLEAN,
              dictEnc : {0, 2}, dataEnc : {2, 8}, crc : {"none", "good"}, codec : {0, 1, 5}, stats : {NoStatsW}, extraWidth : {0, 2},
-             v2 : {FALSE}, encTag : {255}, codecTag : {255}, hmutPage : {0}, hmut : {[kind |-> "none"]}]
+             v2 : {FALSE}, encTag : {255}, codecTag : {255}, hmutPage : {0}, hmut : {[kind |-> "none"]},
+             mixEnc : {"all", "fallback", "reverse"}, minW0 : BOOLEAN, emptyDict : BOOLEAN]
 \* unsupported features: data page v2, encodings carquet does not implement (tag only differs; the payload
 \* is PLAIN, so a reader that ignores the tag returns *these* values - which would be wrong for a
 \* delta-encoded page; here a wrong answer cannot be told from a right one, hence only v2 and codec tags
